@@ -288,7 +288,8 @@ class MinMaxAggregator:
         )
 
         body = []
-        var_x = Variable(LOC, "X")
+        # must not clash with the variables of the group
+        var_x = UniqueVariables(Rule(LOC, head, lits_with_vars)).make_unique(Variable(LOC, "X"))
 
         body.append(
             Literal(
